@@ -42,7 +42,7 @@ func dispatchPool(op string, buf []byte) {
 // number, never wall-clock time), seeded schedule perturbation, and pool poisoning.
 type pipeLog struct {
 	mu       sync.Mutex
-	events   [][4]interface{} // seq, site, channel number, buffer number
+	events   [][5]interface{} // seq, site, channel number, buffer number, len(buf)
 	chans    map[uintptr]int
 	bufs     map[uintptr]int
 	poisoned map[uintptr]int // buffer address -> length poisoned
@@ -88,7 +88,7 @@ func (p *pipeLog) hook(site string, ch interface{}, buf []byte) {
 		}
 	}
 	if len(p.events) < p.maxEv {
-		p.events = append(p.events, [4]interface{}{len(p.events) + 1, site, cn, bn})
+		p.events = append(p.events, [5]interface{}{len(p.events) + 1, site, cn, bn, len(buf)})
 	}
 	if p.perturb > 0 && p.rnd.Intn(100) < p.perturb {
 		yield = 1 + p.rnd.Intn(3)
@@ -119,7 +119,7 @@ func (p *pipeLog) pool(op string, buf []byte) {
 		p.bufs[a] = bn
 	}
 	if len(p.events) < p.maxEv {
-		p.events = append(p.events, [4]interface{}{len(p.events) + 1, "pool." + op, 0, bn})
+		p.events = append(p.events, [5]interface{}{len(p.events) + 1, "pool." + op, 0, bn, len(buf)})
 	}
 	if p.poison {
 		switch op {
@@ -223,7 +223,11 @@ func pipeRun(args []string) error {
 				sink := &recSink{}
 				o := c.Opts
 				o.Conc = 1
-				runWriter(o, input, []wcall{{Op: "write", N: len(input)}, {Op: "close"}}, sink, nil, nil)
+				calls := c.Calls
+				if len(calls) == 0 {
+					calls = []wcall{{Op: "write", N: len(input)}, {Op: "close"}}
+				}
+				runWriter(o, input, calls, sink, nil, nil)
 				frame = applyOps(sink.bytes(), c.Ops)
 				currentLog.Store(pl)
 				cfg := c.Cfg
